@@ -1,14 +1,36 @@
 mod c17;
+mod c17lang;
+mod c32api;
 mod c36;
 
 fn main() {
     let args: Vec<String> = std::env::args().skip(1).collect();
     let id = args.first().cloned().unwrap_or_default();
+    if id == "probe" {
+        // vc-eval probe FILE.veryl — analyse a hand-written module and print every evaluated const
+        let src = std::fs::read_to_string(&args[1]).expect("read");
+        let t = std::thread::Builder::new().stack_size(16 << 20).spawn(move || match c17lang::analyse(&src) {
+            Ok(a) => {
+                println!("errors: {:?}\nwarnings: {:?}", a.errors, a.warnings);
+                for (k, v) in a.consts {
+                    println!("{k} = {}", c17::from_value(&v).map(|b| b.to_string()).unwrap_or_else(|e| e));
+                }
+            }
+            Err(e) => println!("rejected: {e}"),
+        });
+        t.unwrap().join().unwrap();
+        return;
+    }
     vcore::quiet_panics();
     let ctx = vcore::Ctx::new(&id, &args[1.min(args.len())..]);
     match id.as_str() {
         "C17" => c17::run(&ctx),
         "C36" => c36::run(&ctx),
+        // the API half of C32 (not registered in MANIFEST; run as `vc-eval C32api quick`)
+        "C32api" => {
+            c32api::random_table_api(&ctx);
+            ctx.finish("exploration", "random_table API: range draws within bounds, reproducible per (seed, handle)");
+        }
         _ => {
             eprintln!("unknown property id {id:?}");
             std::process::exit(2);
